@@ -161,8 +161,8 @@ def single_step(ctx):
                 for c in f.stmts.values():
                     if c["k"] == "CXXMemberCallExpr" and path(f, f.s(c["obj"])) in ("this", "*this"):
                         g = fb.callee_fn(f, c)
-                        if g is None or g.rec != cls:
-                            continue
+                        if g is None or g.rec != cls or g.name in ("modify", "read"):
+                            continue        # functor forms are judged through the closure they are given (below)
                         for st in field_refs(g, cls):
                             if st["m"]["name"] != "m_obj":
                                 continue
@@ -176,6 +176,32 @@ def single_step(ctx):
                         if muts:
                             f_loc = g
                             break
+            if not muts and not delegated:
+                # expressed through modify(closure): the closure's writes to its parameter are the payload modification
+                for c in f.stmts.values():
+                    if c["k"] == "CXXMemberCallExpr" and (c.get("callee") or {}).get("name") == "modify" and \
+                            path(f, f.s(c["obj"])) in ("this", "*this") and c["args"]:
+                        lam = unwrap(f, f.s(c["args"][0]))
+                        while lam is not None and lam["k"] in CTORS and len(lam["args"]) == 1:
+                            lam = unwrap(f, f.s(lam["args"][0]))
+                        if lam is None or lam["k"] != "LambdaExpr":
+                            continue
+                        for oid in lam.get("call_ops", []):
+                            g = f.unit.fn_by_id.get(oid)
+                            if g is None or not g.params:
+                                continue
+                            pn = "p:" + g.params[0]["name"]
+                            for st in g.stmts.values():
+                                tgt = None
+                                if st["k"] == "CXXOperatorCallExpr" and st.get("op") == "=" and st["args"]:
+                                    tgt = path(g, g.s(st["args"][0]))
+                                elif st["k"] == "BinaryOperator" and st.get("op") == "=":
+                                    tgt = path(g, g.children(st)[0])
+                                elif st["k"] == "CallExpr" and callee_fq(st) in ("std::swap", "std::exchange") and st["args"]:
+                                    if pn in [path(g, g.s(a)) for a in st["args"]]:
+                                        muts.append((st, "call", dict(st, callee=dict(st.get("callee") or {}, fq="modify(closure) -> " + callee_fq(st))), False))
+                                if tgt == pn:
+                                    muts.append((st, "write", dict(st, callee={"fq": "modify(closure) -> assignment"}), True))
             if not muts and delegated:
                 ctx.ob(rid, len(delegated) == 1, f.where, "%s::%s forwards to one replacing operation" % (cls.split("::")[-1], f.name),
                        "", fn=f.label, inst=f.qname)
